@@ -45,7 +45,7 @@ from oqupy.backends.tempo_backend import TempoBackend
 from oqupy.backends.tempo_backend import MeanFieldTempoBackend
 from oqupy.backends.tempo_backend import TIBaseBackend
 from oqupy.util import check_convert, check_isinstance, check_true,\
-        get_progress
+        count_time_steps, get_progress
 
 class TempoParameters(BaseAPIClass):
     r"""
@@ -388,7 +388,8 @@ class Tempo(BaseAPIClass):
             end_time: float) -> Tuple[int, int]:
         """Return the number of steps required from start_step to reach
         end_time"""
-        end_step = int((end_time - self._start_time)/self._parameters.dt)
+        end_step = count_time_steps(
+            self._start_time, end_time, self._parameters.dt)
         num_step = max(0, end_step - start_step)
         return num_step
 
@@ -959,7 +960,8 @@ class MeanFieldTempo(BaseAPIClass):
             end_time: float) -> Tuple[int, int]:
         """Return the number of steps required from start_step to reach
         end_time"""
-        end_step = int((end_time - self._start_time)/self._parameters.dt)
+        end_step = count_time_steps(
+            self._start_time, end_time, self._parameters.dt)
         num_step = max(0, end_step - start_step)
         return num_step
 
